@@ -25,6 +25,8 @@ HARNESSES = {
     'uri_abs_path': ('Uri::get_abs_path', ['C16', 'C03'], 'all UTF-8 URIs of length <= 12 bytes over the alphabet {h,t,p,:,/,a,.,%,U+00E9}', False, False),
     'uri_abs_path_http3': ('Uri::get_abs_path', ['C16', 'C03'], '"http://" + all UTF-8 suffixes of <= 3 bytes over the property alphabet', False, False),
     'uri_abs_path_http8': ('Uri::get_abs_path', ['C16', 'C03'], '"http://" + all UTF-8 suffixes of <= 8 bytes over the property alphabet (URIs up to 15 bytes)', False, False),
+    'status_line_bytes': ('StatusLine::write_all', ['C05'], 'all versions x all status codes', True, False),
+    'write_body_bytes': ('Response::write_body', ['C05'], 'bodies of <= 4 bytes, with and without body', False, False),
     'deprecation_header_line': ('ResponseHeaders::write_deprecation_header', ['C05'], 'both flag values', True, False),
     'allow_header_line_0': ('ResponseHeaders::write_allow_header', ['C05'], 'the empty Allow list', True, False),
     'allow_header_line_1': ('ResponseHeaders::write_allow_header', ['C05'], 'all Allow lists of 1 method', False, False),
